@@ -4,21 +4,38 @@ Import ListNotations.
 Require Import Nib.C01.Sites Nib.C01.Model Nib.C01.FactsCfg Nib.C01.Proofs Nib.C01.SiteClasses Nib.C01.Property.
 Require Import Nib.Gen.C01Facts.
 
+Lemma filter_nil_forallb {A} (p : A -> bool) l : filter (fun x => negb (p x)) l = [] -> forallb p l = true.
+Proof.
+  induction l as [|x t IH]; simpl; auto. destruct (p x); simpl; [auto|discriminate].
+Qed.
+
+(** the offending facts, so that a failing obligation names them in coqc's error message *)
+Definition unclassified_map_sites : list site := filter (fun s => negb (site_okb s)) map_sites.
+Definition stale_table_entries : list entry := filter (fun e => negb (entry_liveb map_sites e)) table.
+Definition unjustified_toslice_uses : list ts_use := filter (fun u => negb (ts_use_okb u)) toslice_uses.
+Definition unknown_incidental_sites : list inc_site := filter (fun i => negb (inc_okb i)) incidental_sites.
+
+Theorem no_unclassified_map_site : unclassified_map_sites = [].
+Proof. vm_compute. reflexivity. Qed.
+
 (** every `for … range <map>` of the consensus code is a site the table knows, with the expected shape
     and callees, under a justification whose lemma is proved *)
 Theorem every_map_site_classified : Forall site_ok map_sites.
-Proof. apply Forall_forall. intros s Hs. unfold site_ok. revert s Hs. apply forallb_forall. vm_compute. reflexivity. Qed.
+Proof.
+  apply Forall_forall. intros s Hs. unfold site_ok. revert s Hs. apply forallb_forall.
+  apply filter_nil_forallb. exact no_unclassified_map_site.
+Qed.
 
 (** the table has no line without a site (a sorted site cannot silently disappear or be renamed) *)
-Theorem no_stale_table_entry : forallb (entry_liveb map_sites) table = true.
+Theorem no_stale_table_entry : stale_table_entries = [].
 Proof. vm_compute. reflexivity. Qed.
 
 (** every result of set.Set.ToSlice is only measured, sorted, or printed *)
-Theorem every_toslice_use_ok : forallb ts_use_okb toslice_uses = true.
+Theorem every_toslice_use_ok : unjustified_toslice_uses = [].
 Proof. vm_compute. reflexivity. Qed.
 
 (** no time.Now / math/rand / go statement in consensus packages beyond the listed ones *)
-Theorem every_incidental_site_known : forallb inc_okb incidental_sites = true.
+Theorem every_incidental_site_known : unknown_incidental_sites = [].
 Proof. vm_compute. reflexivity. Qed.
 
 Definition current_cfg : cfg := cfg_of_facts map_sites toslice_uses.
